@@ -30,10 +30,13 @@ import (
 
 	"github.com/taurusgroup/multi-party-sig/internal/zzverif/drv"
 	"github.com/taurusgroup/multi-party-sig/internal/zzverif/hist"
+	"github.com/taurusgroup/multi-party-sig/internal/zzverif/kmat"
+	"github.com/taurusgroup/multi-party-sig/internal/zzverif/oracle"
 	"github.com/taurusgroup/multi-party-sig/internal/zzverif/ref"
 	"github.com/taurusgroup/multi-party-sig/internal/zzverif/sess"
 	"github.com/taurusgroup/multi-party-sig/internal/zzverif/vkit"
 	"github.com/taurusgroup/multi-party-sig/pkg/party"
+	"github.com/taurusgroup/multi-party-sig/protocols/frost"
 )
 
 var strictInputs = flag.Bool("strict-inputs", false, "report a refresh/sign that writes into the configuration objects it was given as a violation (input-mutated:<what>) instead of an observation")
@@ -398,8 +401,13 @@ func (r *runner) refreshOracle(step int, pre *hist.Facts, retained, nw *hist.Mat
 		}
 	}
 	// 9. the refresh interrupted at every crash point leaves the previous material intact and usable
-	if len(r.ln.epochs) > 0 && !(sc.T == 0) {
+	if len(r.ln.epochs) > 0 && !(sc.T == 0) && (sc.Proto != hist.CMP || vkit.Thorough() || len(r.k.History) == 1) {
+		// (CMP, quick tier: only in the history that consists of the refresh alone - a cut session costs seconds)
 		r.interruptedRefresh(step, r.ln.epochs[len(r.ln.epochs)-1], pre)
+	}
+	// 10. a refresh run by every strict subset of the share holders that is large enough
+	if len(r.ln.epochs) > 0 && !(sc.T == 0) {
+		r.subsetRefresh(step, r.ln.epochs[len(r.ln.epochs)-1], pre)
 	}
 	// 8. (observation) the same with the RETAINED live object instead of a restored snapshot of the previous epoch
 	S := historySigners(sc, ids)
@@ -445,6 +453,9 @@ func (r *runner) interruptedRefresh(step int, preSnap *hist.Snap, pre *hist.Fact
 		}
 	}
 	for k := 0; k < total; k++ {
+		if sc.Proto == hist.CMP && !vkit.Thorough() && !signAt[k] {
+			continue // CMP, quick tier: the first, the middle and the last crash point only
+		}
 		m, err := preSnap.Restore()
 		if err != nil {
 			return
@@ -479,6 +490,166 @@ func (r *runner) interruptedRefresh(step int, preSnap *hist.Snap, pre *hist.Fact
 			if err := hist.CheckSigned(o, S, r.ln.pub, msg); err != nil {
 				r.violate("interrupted-refresh:old-material-cannot-sign", fmt.Sprintf("refresh cut after %d of %d deliveries; signing with the configurations the parties still hold fails: %v — %s", k, total, err, hist.Describe(o)))
 				return
+			}
+		}
+	}
+}
+
+// subsetRefresh: FROST lets any set of share holders of size > t run a refresh (the parties that
+// are online); whoever is absent is thereby retired.  For EVERY such strict subset P: the session
+// completes at all of P; the group key is unchanged; the new table (all n entries, also the absent
+// parties') is the same at all of P and is again one degree-t sharing of the key in the exponent
+// (every (t+1)-subset of entries interpolates to it); own shares match own entries and changed;
+// every (t+1)-subset of P's new shares reconstructs the key; an absent party's old share neither
+// matches its new table entry nor reconstructs the key together with t new shares; P can sign.
+func (r *runner) subsetRefresh(step int, preSnap *hist.Snap, pre *hist.Facts) {
+	sc := r.k.Scenario
+	if sc.Proto != hist.Frost && sc.Proto != hist.Taproot {
+		return
+	}
+	ids := kmat.IDs[:sc.N]
+	for size := sc.T + 1; size < sc.N; size++ {
+		if size < 2 {
+			continue
+		}
+		for _, P := range hist.Subsets(ids, size) {
+			m, err := preSnap.Restore()
+			if err != nil {
+				return
+			}
+			var spec *sess.Spec
+			if sc.Proto == hist.Frost {
+				spec = sess.FrostRefresh(m.Frost, P)
+			} else {
+				spec = sess.FrostRefreshTaproot(m.Tap, P)
+			}
+			r.stats["subset_refreshes"]++
+			nv0 := len(r.vios)
+			o := r.run(spec, step, "refresh-subset-"+names(P))
+			bad := func(clause, detail string) {
+				r.violate("subset-refresh:"+clause, fmt.Sprintf("refresh run by %s of %d share holders (threshold %d): %s", names(P), sc.N, sc.T, detail))
+			}
+			if o.Panic != "" {
+				r.panicked("refresh-subset", o.Panic)
+				return
+			}
+			if len(o.StartErr) > 0 {
+				// refusing a subset refresh altogether is a conforming (if restrictive) answer; nothing to judge
+				r.observe("subset-refresh-refused|"+sc.Proto, fmt.Sprintf("%v", o.StartErr))
+				return
+			}
+			if !o.AllDone(P) {
+				bad("does-not-complete", hist.Describe(o))
+				return
+			}
+			views := map[string]*oracle.View{}
+			for _, id := range P {
+				v, err := oracle.ViewOf(o.Results[id])
+				if err != nil {
+					bad("readable", err.Error())
+					return
+				}
+				views[string(id)] = v
+			}
+			first := views[string(P[0])]
+			inP := map[string]bool{}
+			for _, id := range P {
+				inP[string(id)] = true
+			}
+			for _, id := range P {
+				v := views[string(id)]
+				if !v.Public.Equal(r.ln.pub) {
+					bad("key-changed", fmt.Sprintf("%s reports group key %s", id, hist.Hex(v.Public)))
+				}
+				if v.Threshold != sc.T {
+					bad("threshold", fmt.Sprintf("%s reports threshold %d", id, v.Threshold))
+				}
+				if len(v.Shares) != sc.N {
+					bad("table-size", fmt.Sprintf("%s has %d table entries for %d share holders", id, len(v.Shares), sc.N))
+				}
+				for _, j := range ids {
+					a, ok1 := v.Shares[string(j)]
+					b, ok2 := first.Shares[string(j)]
+					if !ok1 || !ok2 || !a.Equal(b) {
+						bad("same-table", fmt.Sprintf("entry of %s differs between %s and %s", j, P[0], id))
+					}
+				}
+				if own, ok := v.Shares[string(id)]; !ok || !ref.MulG(v.Secret).Equal(own) {
+					bad("own-share", fmt.Sprintf("the new secret share of %s does not match its table entry", id))
+				}
+				if v.Secret.Cmp(pre.Secret[string(id)]) == 0 {
+					bad("share-unchanged", fmt.Sprintf("the secret share of %s did not change", id))
+				}
+			}
+			if len(r.vios) > nv0 {
+				return
+			}
+			// the whole table is one degree-t sharing of the key in the exponent
+			for _, sub := range hist.Subsets(ids, sc.T+1) {
+				xs := make([]*big.Int, len(sub))
+				ps := make([]ref.Pt, len(sub))
+				for i, id := range sub {
+					xs[i] = ref.IDScalar(string(id))
+					ps[i] = first.Shares[string(id)]
+				}
+				if !ref.ReconstructExp(xs, ps).Equal(r.ln.pub) {
+					bad("reconstruct-table", fmt.Sprintf("the new table entries of %s do not interpolate to the group key", names(sub)))
+					return
+				}
+			}
+			// new shares of P reconstruct; an absent party's old share is retired
+			for _, sub := range hist.Subsets(P, sc.T+1) {
+				xs := make([]*big.Int, len(sub))
+				ys := make([]*big.Int, len(sub))
+				for i, id := range sub {
+					xs[i], ys[i] = ref.IDScalar(string(id)), views[string(id)].Secret
+				}
+				if !ref.MulG(ref.Reconstruct(xs, ys)).Equal(r.ln.pub) {
+					bad("reconstruct-secret", fmt.Sprintf("the new shares of %s do not reconstruct the group key", names(sub)))
+					return
+				}
+			}
+			for _, ab := range ids {
+				if inP[string(ab)] {
+					continue
+				}
+				old := pre.Secret[string(ab)]
+				if e, ok := first.Shares[string(ab)]; ok && ref.MulG(old).Equal(e) {
+					bad("absent-share-not-retired", fmt.Sprintf("the pre-refresh share of the absent party %s still matches its entry in the new table", ab))
+					return
+				}
+				if sc.T >= 1 {
+					for _, sub := range hist.Subsets(P, sc.T) {
+						xs := []*big.Int{ref.IDScalar(string(ab))}
+						ys := []*big.Int{old}
+						for _, id := range sub {
+							xs, ys = append(xs, ref.IDScalar(string(id))), append(ys, views[string(id)].Secret)
+						}
+						if ref.MulG(ref.Reconstruct(xs, ys)).Equal(r.ln.pub) {
+							bad("absent-share-reconstructs", fmt.Sprintf("the pre-refresh share of the absent party %s together with the new shares of %s reconstructs the key", ab, names(sub)))
+							return
+						}
+					}
+				}
+			}
+			// P signs with the new material
+			nm := &hist.Mat{Sc: m.Sc, IDs: P, Frost: map[party.ID]*frost.Config{}, Tap: map[party.ID]*frost.TaprootConfig{}}
+			for _, id := range P {
+				switch c := o.Results[id].(type) {
+				case *frost.Config:
+					nm.Frost[id] = c
+				case *frost.TaprootConfig:
+					nm.Tap[id] = c
+				}
+			}
+			{
+				S := P[:sc.T+1]
+				msg := hist.Msg("c08-subset")
+				so := r.run(nm.SignSpec(S, msg, nil), step, "sign-after-subset-refresh")
+				if err := hist.CheckSigned(so, S, r.ln.pub, msg); err != nil {
+					bad("new-material-cannot-sign", fmt.Sprintf("%v — %s", err, hist.Describe(so)))
+					return
+				}
 			}
 		}
 	}
